@@ -33,8 +33,8 @@ def run(rep, tier):
     rid = "C03.M"
     rep.rule(rid, "hash / XOF / cXOF output equals the specification for every message value of the shape")
     prep = modes.prepare(tier)
-    ml = (0, 1, 7, 8, 9, 17) if tier == "quick" else (0, 1, 2, 7, 8, 9, 15, 16, 17, 24, 31, 33)
-    ol = (1, 8, 9, 33) if tier == "quick" else (1, 7, 8, 9, 16, 17, 32, 33, 41)
+    ml = (0, 1, 7, 8, 9, 17) if tier == "quick" else tuple(range(0, 35)) + (63, 64, 65, 129, 1000)
+    ol = (1, 8, 9, 33) if tier == "quick" else (1, 2, 7, 8, 9, 15, 16, 17, 31, 32, 33, 41, 64, 65, 200)
     names = [None, b"", b"KMAC", b"N" * 32, b"L" * 33]
     cases = []
     for js, cname, layout, maxs, units in prep:
